@@ -160,6 +160,43 @@ fn table_coherent<E: EndianParse, P: ParseAt + Show>(e: E, c: Class, data: &[u8]
     if items != expect_items {
         return Err(format!("iteration yields {} items, reference {} (or contents differ)", items.len(), expect_items.len()));
     }
+    // the Iterator trait's provided methods agree with plain `next()` (an override of nth / count / last / size_hint
+    // must be the same function): resumed `nth`, `skip`, `step_by`, `count`, `last`, `size_hint`
+    let n = items.len();
+    for a in 0..n.min(4) + 1 {
+        for k in 0..n.min(4) + 2 {
+            let mut it = t.iter();
+            for _ in 0..a { it.next(); }
+            let got = it.nth(k).map(|v| v.show());
+            let want = items.get(a + k).cloned();
+            if got != want {
+                return Err(format!("after {} next() calls, nth({}) is not item {} of the iteration", a, k, a + k));
+            }
+            let after = it.next().map(|v| v.show());
+            if want.is_some() && after != items.get(a + k + 1).cloned() {
+                return Err(format!("after {} next() calls and nth({}), next() is not item {}", a, k, a + k + 1));
+            }
+        }
+    }
+    for (a, b) in [(0usize, 2usize), (1, 2), (1, 1), (2, 3)] {
+        let mut it = t.iter();
+        if a > 0 { it.next(); }
+        let got: Vec<String> = it.skip(a.saturating_sub(1)).step_by(b).take(n + 2).map(|v| v.show()).collect();
+        let want: Vec<String> = items.iter().skip(if a > 0 { 1 + a - 1 } else { 0 }).step_by(b).cloned().collect();
+        if got != want {
+            return Err(format!("next(){}.skip().step_by({}) differs from the same walk over the collected items", if a > 0 { " then" } else { " not called," }, b));
+        }
+    }
+    if t.iter().count() != n {
+        return Err(format!("count() = {} but next() yields {} items", t.iter().count(), n));
+    }
+    if t.iter().last().map(|v| v.show()) != items.last().cloned() {
+        return Err("last() is not the last item next() yields".into());
+    }
+    let (lo, hi) = t.iter().size_hint();
+    if lo > n || hi.map(|h| h < n).unwrap_or(false) {
+        return Err(format!("size_hint() = ({}, {:?}) excludes the {} items next() yields", lo, hi, n));
+    }
     // fused
     let mut it = t.iter();
     while it.next().is_some() {}
